@@ -541,10 +541,10 @@ func (r *c09Runner) enumerate(thorough bool) {
 	type sr struct{ sys, kres, anno int64 }
 	srs := []sr{{0, 0, 0}, {3, 5, 0}, {20, 5, 8}, {3, 0, 8}}
 	if thorough {
-		tps = append(tps, tp{0, -1}, tp{25, 100}, tp{100, 0}, tp{75, 75})
+		tps = append(tps, tp{0, -1}, tp{25, 100})
 		polC = []string{"", "usage", "maxUsageRequest"}
 		polM = []string{"", "usage", "request", "maxUsageRequest"}
-		srs = append(srs, sr{20, 0, 0}, sr{6, 5, 8}, sr{0, 0, 30})
+		srs = append(srs, sr{20, 0, 0})
 	}
 	plain, zoned := c09EnumPodSets(c, m, thorough)
 	mk := func(pc, pm string, t tp, s sr, ps c09PodSet, zones []c09RL, capUnits int64) c09In {
@@ -577,7 +577,7 @@ func (r *c09Runner) enumerate(thorough bool) {
 		for _, pm := range polM {
 			for ti, t := range tps {
 				for si, s := range srs {
-					if !thorough && (ti+si)%2 == 1 {
+					if (ti+si)%2 == 1 { // half of the (threshold, cap) x (usage, reservation) grid for the zoned scenarios
 						continue
 					}
 					for _, zc := range zoneCfgs {
@@ -602,9 +602,10 @@ func (r *c09Runner) enumerate(thorough bool) {
 			}
 		}
 	}
-	// stale node metrics: degrade time 15 min = 900 s; boundary 900 (not yet stale), 901, far, never updated
-	for _, age := range []int64{0, 899, 900, 901, 3600, 100000, -1} {
-		for _, deg := range []int64{15, 1} {
+	// stale node metrics: ages around the degrade time d (d itself is not yet stale), far beyond it, never updated
+	for _, deg := range []int64{1, 5, 15} {
+		d := deg * 60
+		for _, age := range []int64{0, d - 1, d, d + 1, d + 29, d + 31, d + 59, d + 61, 2 * d, 100000, -1} {
 			for _, ps := range []c09PodSet{{}, one} {
 				for _, zc := range [][]c09RL{nil, zoneCfgs[0]} {
 					in := mk("", "usage", tp{75, -1}, sr{3, 5, 0}, ps, zc, capV)
@@ -829,7 +830,7 @@ func TestVerifC09(t *testing.T) {
 	r.enumerate(vu.Thorough())
 	nEnum := r.rec.Segments()
 	if vu.Thorough() {
-		r.random(vu.EnvInt("VERIF_C09_RANDOM", 60000), 9)
+		r.random(vu.EnvInt("VERIF_C09_RANDOM", 40000), 9)
 	} else {
 		r.random(vu.EnvInt("VERIF_C09_RANDOM", 2500), 9)
 	}
